@@ -99,6 +99,18 @@ def remove_while_iterating(chk: Check, eng: Engine, rule: str) -> None:
             copied = isinstance(it, ast.Call) and isinstance(it.func, ast.Name) and it.func.id in ("list", "tuple", "sorted", "reversed") or \
                 (isinstance(it, ast.Subscript) and isinstance(it.slice, ast.Slice))
             removals = [c for c in ast.walk(lp) if isinstance(c, ast.Call) and isinstance(c.func, ast.Attribute) and c.func.attr in ("remove", "pop", "insert") and isinstance(c.func.value, ast.Attribute)]
+            # removal through a module-level helper that deletes from the list it is given (`_remove_node(node.nodes, child)`)
+            helper_removals = []
+            for c in ast.walk(lp):
+                if isinstance(c, ast.Call) and isinstance(c.func, ast.Name) and c.args and isinstance(c.args[0], ast.Attribute):
+                    h = eng.ix.modules[f.module].functions.get(c.func.id)
+                    if h is not None and h.params() and any(isinstance(d, ast.Delete) and any(isinstance(t, ast.Subscript) and norm(t.value) == h.params()[0] for t in d.targets) or
+                                                            (isinstance(d, ast.Call) and isinstance(d.func, ast.Attribute) and d.func.attr in ("remove", "pop") and norm(d.func.value) == h.params()[0])
+                                                            for d in ast.walk(h.node)):
+                        helper_removals.append(c)
+            if helper_removals:
+                # same shape as a method call on the list: func.value is the list expression
+                removals += [ast.Call(func=ast.Attribute(value=c.args[0], attr="remove", ctx=ast.Load()), args=c.args[1:], keywords=[]) for c in helper_removals]
             if not removals:
                 continue
             n += 1
@@ -553,6 +565,9 @@ def run(chk: Check, eng: Engine) -> None:
         chk.bad("R19-e", eng.relfile(on), expl[0].lineno, on.fq, f"following the history returns {r_follow}; add_option calls outside the exploring branch: {len(all_adds) - len(in_expl)}",
                 "messages that were already exchanged are offered again, or the walk stops at the last exchanged message", keyparts="follow-branch")
 
+    chk.rule("R19-l", "the visitors that cut a protocol grammar down to some parties remove grammar nodes by identity, never by (symbol-only) equality", floor=2)
+    node_list_identity_rule(chk, eng, "R19-l")
+
     # ---- R19-f ---------------------------------------------------------------
     fc = eng.cls(f"{NAV}.packetforecaster", "PacketForecaster")
     pr = eng.method(fc, "predict", inherited=False)
@@ -585,12 +600,47 @@ def run(chk: Check, eng: Engine) -> None:
             chk.bad("R19-f", eng.relfile(pr), c.lineno, pr.fq, "`complete_trees.add(...)` is not guarded by `is_complete`", "an unfinished interaction is reported as complete", keyparts="complete-unguarded")
 
 
+def node_list_identity_rule(chk: Check, eng: Engine, rule: str) -> None:
+    """Grammar nodes compare by value (`NonTerminalNode.__eq__`: the symbol only - sender and recipient are not looked at), so `list.remove(n)`
+    and `list.index(n)` on the element lists of a grammar node find the first *equal* node.  The visitors that edit a protocol grammar (party
+    slicing, truncation of invisible messages) must pick the node itself: positions, identity (`is`), or a helper that does so."""
+    node_base = eng.cls("fandango.language.grammar.nodes.node", "Node")
+    by_value = sorted(c.name for c in node_base.all_subclasses() if "__eq__" in c.methods)
+    if not by_value:
+        raise AnalysisError("no grammar node class defines __eq__ any more (the premise of the node-list rule is gone)")
+    LISTS = {"nodes", "alternatives"}
+    n = 0
+    for f in eng.ix.all_functions:
+        if not f.module.startswith(("fandango.language.grammar.node_visitors", "fandango.language.parse.slice_parties", "fandango.language.parse.io", NAV)):
+            continue
+        kid_locals = {t.id for a in walk_local(f.node) if isinstance(a, ast.Assign) and isinstance(a.value, ast.Call) and isinstance(a.value.func, ast.Attribute) and a.value.func.attr == "children"
+                      for t in a.targets if isinstance(t, ast.Name)}
+        for c in walk_local(f.node):
+            if not isinstance(c, ast.Call):
+                continue
+            if isinstance(c.func, ast.Attribute) and c.func.attr in ("remove", "index") and c.args:
+                recv = c.func.value
+                if (isinstance(recv, ast.Attribute) and recv.attr in LISTS) or (isinstance(recv, ast.Name) and recv.id in kid_locals):
+                    n += 1
+                    chk.bad(rule, eng.relfile(f), c.lineno, f.fq, f"`{short(c, 60)}` finds a grammar node by equality ({', '.join(by_value[:3])} compare by value)",
+                            "of two messages with the same type and different parties (`<Server:Client:ping> <Client:Server:ping>`) the first one is taken, whichever was meant: "
+                            "slicing the protocol to one party removes the wrong message", keyparts=f"node-by-value|{f.qualname}|{norm(recv)}")
+            elif isinstance(c.func, ast.Name) and any(isinstance(a, ast.Attribute) and a.attr in LISTS for a in c.args):
+                h = eng.ix.modules[f.module].functions.get(c.func.id)
+                if h is not None and any(isinstance(x, ast.Compare) and any(isinstance(o, (ast.Is, ast.IsNot)) for o in x.ops) for x in ast.walk(h.node)):
+                    n += 1
+                    chk.ok(rule, f.fq, c.lineno, f"`{short(c, 60)}` edits the node list by identity (helper {h.name} compares with `is`)")
+    if n < 2:
+        raise AnalysisError(f"only {n} edits of grammar node lists found in the protocol-grammar visitors")
+
+
 # ------------------------------------------------------------------ self-test variants
 from ..mutants import M  # noqa: E402
 
 _CNV = "src/fandango/io/navigation/visitor/continuing_nodevisitor.py"
 _PF = "src/fandango/io/navigation/packetforecaster.py"
 MUTANTS = [
+    M("truncator-removes-the-first-equal-node", "src/fandango/language/grammar/node_visitors/packet_truncator.py", "                _remove_node(node.nodes, child)\n", "                node.nodes.remove(child)\n", "R19-l"),
     M("message-node-memo-keyed-by-symbol-equality", "src/fandango/io/navigation/stategrammarconverter.py", "        self.seen_keys.add(symbol)\n        self.processed_keys.add(symbol)\n        return repl_node\n",
       "        self.seen_keys.add(symbol)\n        self.processed_keys.add(symbol)\n        self._packet_nodes[node] = repl_node\n        return repl_node\n", "R19-j",
       more=(("        if node.symbol.is_type(TreeValueType.STRING):\n            symbol = NonTerminal(\"<_packet_\" + node.symbol.name()[1:])\n", "        if node in self._packet_nodes:\n            return self._packet_nodes[node]\n        if node.symbol.is_type(TreeValueType.STRING):\n            symbol = NonTerminal(\"<_packet_\" + node.symbol.name()[1:])\n"),)),
